@@ -126,6 +126,8 @@ def run(ctx):
         ctx.count(res["cases"])
         for d in res["diffs"][:3]:
             ctx.tie_broken("T2-fn json codec (all code points)", {"first_difference": fndiff.first_difference(d["go"], d["model"]), "s": d["req"]["s"][:40]})
+    from . import c12
+    c12.codec_tie(ctx, ctx.seed + 1750, 400 if ctx.quick else 10000)
     r = gen.Rng(ctx.seed * 1000003 + 17)
     st = cmdrun.Store(ctx.ergo, ctx.go)
     try:
